@@ -277,6 +277,23 @@ func (fr *Frame) loopModSet(li *loopInfo) (*ModSet, map[*ssa.Alloc]bool) {
 	for b := range li.blocks {
 		for _, in := range b.Instrs {
 			fr.fc.g.instrMods(fr.fc, fr.fn, in, ms)
+			// stores to local cells (variables kept in memory) and to captured variables
+			if stI, ok := in.(*ssa.Store); ok {
+				if ad, ok := fr.addrs[stI.Addr]; ok && ad.Kind == aLocal {
+					fr.fc.storeNames(ad, pointee(stI.Addr.Type()), ms.Names)
+				}
+				if fv, ok := stI.Addr.(*ssa.FreeVar); ok {
+					if ad := fr.addrOf(fv, nil); ad != nil && ad.Kind == aLocal {
+						fr.fc.storeNames(ad, pointee(stI.Addr.Type()), ms.Names)
+					}
+				}
+			}
+			// closures called in the loop may write the local cells they capture
+			if ci, ok := in.(ssa.CallInstruction); ok {
+				if mc, ok := ci.Common().Value.(*ssa.MakeClosure); ok {
+					fr.closureLocalMods(mc, ms, 0)
+				}
+			}
 		}
 	}
 	return ms, nil
@@ -318,6 +335,14 @@ func (fr *Frame) loopHead(li *loopInfo, b *ssa.BasicBlock, phis []*ssa.Phi, pred
 	var nst *State
 	if ms.All {
 		nst = st.havocAll(fc.ghostKeep(ms))
+		// local cells and local maps are immune to heap-wide havoc; those written in the loop are havocked by name
+		loc := map[string]bool{}
+		for n := range ms.Names {
+			if fc.isLocalArr(n) {
+				loc[n] = true
+			}
+		}
+		nst = nst.havocSet(loc)
 	} else {
 		set := map[string]bool{}
 		for n := range ms.Names {
@@ -695,9 +720,14 @@ func (fr *Frame) instr(in ssa.Instruction, b *ssa.BasicBlock, st *State) *State 
 	case *ssa.MakeMap, *ssa.MakeChan:
 		ref, st2 := fc.alloc(st, fr.tagStr+x.(ssa.Value).Name()+"!mk")
 		fr.vals[x.(ssa.Value)] = Val{T: x.(ssa.Value).Type(), S: ref}
-		if _, ok := x.(*ssa.MakeMap); ok {
-			fc.regArr("G!maplen", "(Array Int Int)")
-			st2 = st2.store("G!maplen", sx("store", st2.get("G!maplen"), ref, "0"))
+		if mm, ok := x.(*ssa.MakeMap); ok {
+			arr := "G!maplen"
+			if localMap(mm) {
+				arr = "L!maplen"
+				fc.localMaps[ref] = true
+			}
+			fc.regArr(arr, "(Array Int Int)")
+			st2 = st2.store(arr, sx("store", st2.get(arr), ref, "0"))
 		}
 		return st2
 	case *ssa.MakeClosure:
@@ -712,13 +742,13 @@ func (fr *Frame) instr(in ssa.Instruction, b *ssa.BasicBlock, st *State) *State 
 		mv := fr.val(x.Map, st)
 		fr.safety("nil", sNot(sEq(mv.S, "0")), b, in)
 		fr.guardedMapAccess(x.Map, b, in, st)
-		fc.regArr("G!maplen", "(Array Int Int)")
+		arr := fc.maplenArr(mv.S)
 		// length may grow by one
-		old := sx("select", st.get("G!maplen"), mv.S)
+		old := sx("select", st.get(arr), mv.S)
 		nl := fc.freshName("maplen")
 		fc.declareConst(nl, "Int")
 		fc.define(sAnd(sx("<=", old, sym(nl)), sx("<=", sym(nl), sx("+", old, "1")), sx(">=", sym(nl), "1")))
-		return st.store("G!maplen", sx("store", st.get("G!maplen"), mv.S, sym(nl)))
+		return st.store(arr, sx("store", st.get(arr), mv.S, sym(nl)))
 	case *ssa.Range:
 		fr.vals[x] = Val{T: x.Type(), S: "0"}
 		return st
@@ -1383,4 +1413,71 @@ func (fr *Frame) lookupExitLocal(name string, st *State) (Val, bool) {
 		}
 	}
 	return Val{}, false
+}
+
+// localMap: the map never leaves this activation (only looked up, updated, measured, ranged over).
+func localMap(mm *ssa.MakeMap) bool {
+	if mm.Referrers() == nil {
+		return true
+	}
+	for _, r := range *mm.Referrers() {
+		switch u := r.(type) {
+		case *ssa.DebugRef, *ssa.Lookup, *ssa.Range:
+		case *ssa.MapUpdate:
+			if u.Map != mm {
+				return false
+			}
+		case *ssa.Call:
+			b, ok := u.Call.Value.(*ssa.Builtin)
+			if !ok || (b.Name() != "len" && b.Name() != "delete") {
+				return false
+			}
+		default:
+			return false
+		}
+	}
+	return true
+}
+
+func (fc *FnCtx) maplenArr(ref string) string {
+	arr := "G!maplen"
+	if fc.localMaps[ref] {
+		arr = "L!maplen"
+	}
+	fc.regArr(arr, "(Array Int Int)")
+	return arr
+}
+
+// closureLocalMods: local cells of the enclosing activation written by a closure body (transitively through nested closures).
+func (fr *Frame) closureLocalMods(mc *ssa.MakeClosure, ms *ModSet, depth int) {
+	if depth > 3 {
+		return
+	}
+	owner := fr.fc.cloFrames[mc]
+	if owner == nil {
+		owner = fr
+	}
+	cfn, ok := mc.Fn.(*ssa.Function)
+	if !ok {
+		return
+	}
+	for _, b := range cfn.Blocks {
+		for _, in := range b.Instrs {
+			stI, ok := in.(*ssa.Store)
+			if !ok {
+				continue
+			}
+			fv, ok := stI.Addr.(*ssa.FreeVar)
+			if !ok {
+				continue
+			}
+			for i, f := range cfn.FreeVars {
+				if f == fv && i < len(mc.Bindings) {
+					if ad, ok := owner.addrs[mc.Bindings[i]]; ok && ad.Kind == aLocal {
+						fr.fc.storeNames(ad, pointee(fv.Type()), ms.Names)
+					}
+				}
+			}
+		}
+	}
 }
